@@ -40,6 +40,9 @@ TMerge ==
     \* the order-free statement of the same verdict: whether two of the lists share a name does not depend on how they are ordered
     /\ Chk("C14", "acceptance_does_not_depend_on_the_order_of_the_parts", l,
            (\A i \in 1..Len(Rec[l].lists) : IsSortedStrict(Rec[l].lists[i])) => Rec[l].verdict = Verdict(Rec[l].lists))
+    \* C03: this check is what keeps a document from being accepted by two parts at run time (first-match routing would then pick one)
+    /\ Chk("C03", "a_name_two_parts_answer_to_does_not_get_past_the_build", l,
+           (\A i \in 1..Len(Rec[l].lists) : IsSortedStrict(Rec[l].lists[i])) => Rec[l].verdict = Verdict(Rec[l].lists))
     /\ l' = l + 1
     /\ TLCSet(1, l + 1)
     /\ Load(l + 1)
